@@ -88,7 +88,7 @@ def determinism_threads(n, workers_a, workers_b):
     def digests(workers, hs):
         out = {}
         with Pool(workers, (hs, )) as pool:
-            pool.run(({"id": i, "kind": "program", "program": p, "deadline": 600} for i, p in enumerate(progs)),
+            pool.run(({"id": i, "kind": "program", "program": p, "deadline": 150} for i, p in enumerate(progs)),
                      lambda j, r: out.__setitem__(j["id"], (r.get("status"), r.get("events_digest"), r.get("n_events"))))
         return out
 
